@@ -19,34 +19,6 @@ Inductive case :=
       (cap : Z) (o_dec : option dobs) (o_hdr : option hobs)
       (o_pm : eobs) (o_pu : option (dobs * Z)).
 
-Definition size_of (coder : Z) (m : msg) : res Z := if coder =? 0 then udp_size m else tcp_size m.
-Definition encode_into (coder : Z) (m : msg) (buf : list Z) : eres :=
-  if coder =? 0 then udp_encode_into m buf else tcp_encode_into m buf.
-Definition decode (coder : Z) (cap : Z) (bs : list Z) : res (msg * Z) :=
-  if coder =? 0 then udp_decode cap bs else tcp_decode cap bs.
-
-(* bytes the model's Encode produces into an exactly fitting buffer *)
-Definition model_bytes (coder : Z) (m : msg) : option (list Z) :=
-  match size_of coder m with
-  | Ok n => match encode_into coder m (sbuf n) with EOk k b => Some (firstn (Z.to_nat k) b) | _ => None end
-  | _ => None
-  end.
-
-Definition pm_obs (r : res (list Z)) : eobs :=
-  match r with
-  | Ok b => (0, blen b, csum b)
-  | Err e => (err_code e, -1, 0)
-  | _ => (100, -1, 0)
-  end.
-
-Definition pu_obs (r : res (msg * Z * Z)) : dobs * Z :=
-  match r with
-  | Ok (m, n, c) => (DOk (proj m) n, c)
-  | Err e => (DErr (err_code e), -1)
-  | Panic => (DPanic, -1)
-  | Fuel => (DHang, -1)
-  end.
-
 Definition agrees (c : case) : bool :=
   match c with
   | Enc coder m o_size o_bufs cap o_dec o_hdr o_pm o_pu =>
